@@ -288,6 +288,12 @@ def run(fx, tier):
                     key='C09:R-DOM:no-io-after-close:%s::(%s)' % (f.cls, f.tag), where=f.file)
     if n_io < 40:
         raise AnalysisBroken('only %d I/O-initiating continuation paths found' % n_io)
+    # "afterwards ... opens no connection": everything that can hold a pending completion under the service
+    # (timers of the connect/back-off/read path, the resolver, the mutex, the queues) is drained from cancel()
+    from c05 import rule_drain_members
+    from callgraph import CallGraph as _CG
+    v.rule('R-OWN', 'client_service::cancel() drains every member that can park a completion handler (connect timer, resolver, lock, queues): an attempt in progress cannot outlive the disconnect')
+    rule_drain_members(fx, _CG(fx), v, prop='C09', rid='R-OWN', floor=40)
     v.expect_min('R-CGRAPH', 40, 'do_write paths + disconnect_op edges')
     v.expect_min('R-FLOW', 10, 'encode sites')
     v.expect_min('R-ARITH', 8, 'terminal_disconnect_op × TUs')
